@@ -1,0 +1,24 @@
+//go:build verif
+
+package poly1305
+
+import "golang.org/x/crypto/internal/poly1305"
+
+// Re-exports of the internal/poly1305 verification hooks for /verif check C04 (build tag
+// "verif" only); internal/ packages cannot be imported from outside this module.
+
+// VerifC04SumGeneric is the portable one-shot implementation.
+func VerifC04SumGeneric(out *[16]byte, m []byte, key *[32]byte) {
+	poly1305.VerifC04SumGeneric(out, m, key)
+}
+
+// VerifC04GenericMAC is the portable incremental MAC.
+type VerifC04GenericMAC = poly1305.VerifC04GenericMAC
+
+// VerifC04NewGenericMAC returns a portable MAC for the given one-time key.
+func VerifC04NewGenericMAC(key *[32]byte) *VerifC04GenericMAC {
+	return poly1305.VerifC04NewGenericMAC(key)
+}
+
+// VerifC04H returns the accumulator limbs of the dispatching MAC (whole blocks only).
+func (h *MAC) VerifC04H() [3]uint64 { return h.mac.VerifC04H() }
